@@ -77,6 +77,26 @@ def replay_entries(run, tier, seed, module="MC_LoGraph", tag="c17-graph", nq=400
                 g_model = sorted([letters(g["entry"]), letters(g["exit"]), sorted(letters(q) for q in g["seqs"])] for g in beh[kind])
                 if g_real != g_model:
                     return {"ok": False, "why": "variant %s differ from LoGraph's" % kind, "expected": g_model, "actual": g_real}
+            # fourth stage: the calls themselves (LoCall.tla): the multiset of SNP columns and the set of indel records
+            if "columns" in beh:
+                out = os.path.join(sub.dir, "out")
+                if beh["panic"]:
+                    return {"ok": rc != 0, "why": "LoCall says the code indexes a path out of range here, but the run succeeded"}
+                if rc != 0:
+                    return {"ok": False, "why": "ska lo failed: " + se.decode(errors="replace")[-150:]}
+                nm, seqs = vlib.parse_fasta_text(open(out + "_snps.fas").read()) if os.path.exists(out + "_snps.fas") else ([], [])
+                n = len(seqs[0]) if seqs else 0
+                c_real = sorted("".join(x[j] for x in seqs) for j in range(n))
+                c_model = sorted("".join(chr(x) for x in col) for col in beh["columns"])
+                if c_real != c_model:
+                    return {"ok": False, "why": "SNP columns differ from LoCall's", "expected": c_model, "actual": c_real}
+                r_real = sorted([r["ref"], r["alt"], r["before"], r["after"], r["gts"]] for r in lodrv.parse_indel_vcf(open(out + "_indels.vcf").read()))
+                gt = {0: "0", 1: "1", 2: "0/1", 3: "."}
+                by = lambda ds: [ord(c) for c in letters(ds)]
+                r_model = sorted([by(r["ref"]), by(r["alt"]), by(r["before"]), by(r["after"]), [gt[x] for x in r["gts"]]]
+                                 for r in beh["records"])
+                if r_real != r_model:
+                    return {"ok": False, "why": "indel records differ from LoCall's", "expected": r_model, "actual": r_real}
             return {"ok": True}
         finally:
             sub.close()
